@@ -255,7 +255,15 @@ def rule_concluded_per_conclusion(db: ProgramDB) -> List[Instance]:
     derived = derived_closure(m, {cp})
     # names bound by comprehensions / loops over the conclusions also derive from them
     uses = [c for c in own_calls(m) if call_attr(c) in ("check", "add") and isinstance(c.func, ast.Attribute)]
-    uses = [c for c in uses if "concluded" in unparse(c.func.value) or "seen" in unparse(c.func.value).lower()]
+    defs0 = local_defs(m)
+
+    def is_drawn_store(e: ast.AST) -> bool:
+        """the receiver is (derived from) the selector's record of drawn conclusions: the field, or a local defined from it"""
+        if any(isinstance(x, ast.Attribute) and x.attr == "concluded_before" for x in ast.walk(e)):
+            return True
+        return any(isinstance(d, ast.AST) and any(isinstance(x, ast.Attribute) and x.attr == "concluded_before" for x in ast.walk(d))
+                   for nm in ast.walk(e) if isinstance(nm, ast.Name) for d in defs0.get(nm.id, []))
+    uses = [c for c in uses if is_drawn_store(c.func.value)]
     if not uses:
         raise AnalysisError("ConclusionSelector.update_conclusion: no consultation of the 'concluded before' store found")
     defs = local_defs(m)
